@@ -148,6 +148,18 @@ def gen_push_cases(rng, thorough):
             if rng.chance(1, 40): toks.append("c")
         n = rng.choice(BUFSIZES) if rng.chance(1, 2) else rng.below(781)
         add("random", n, toks)
+    # every buffer size 0..=780 for a few names (one long enough to overflow 780 bytes)
+    for j in range(12 if thorough else 2):
+        nf = 20 if j % 2 == 0 else 1 + rng.below(20)
+        toks = [[unit(rng, rng.weighted([("C", 6), ("A", 2), ("B", 2), ("H", 2), ("L", 2)])) for _ in range(13)] for _ in range(nf)]
+        for n in range(781):
+            add("all_buffer_sizes", n, toks)
+    if thorough:
+        # three units before the boundary x two after
+        for combo in itertools.product(CLASSES, repeat=5):
+            f1 = [0x41 + rng.below(26) for _ in range(10)] + [unit(rng, c) for c in combo[:3]]
+            f2 = [unit(rng, c) for c in combo[3:]] + [0x61 + rng.below(26) for _ in range(11)]
+            add("boundary_classes_3x2", rng.choice(BUFSIZES), [f2, f1])
     # fits exactly / one byte short
     for _ in range(300 if thorough else 60):
         nf = 1 + rng.below(3)
@@ -302,28 +314,31 @@ def check(run, replay=None):
     model = V.ocaml_build(GROUP)
     bins, out = V.cargo_build(["lfnrun"], profile="dev")
     if bins is None:
-        run.violation("harness does not build against /repo", out[-3000:], no_input=True)
+        run.violation("harness does not build against %s" % V.REPO, out[-3000:], no_input=True)
         return "proof"
     impl = bins["lfnrun"]
     thorough = run.tier == "thorough"
     rng = V.SplitMix(run.seed)
-    nv = [0]
+    cand = []     # (priority, what, text, no_input): 0 = concrete failing input, 1 = correspondence only
     def viol(what, text, no_input=False):
-        if nv[0] < 3:
-            run.violation(what, text, no_input=no_input)
-        nv[0] += 1
+        cand.append((1 if no_input else 0, what, text, no_input))
     evaluations = 0
     disagreements = 0
 
+    rp_cases, rp_dirs = None, None
     if replay:
-        cmds = [l.strip() for l in open(replay) if l.strip() and not l.startswith("#") and l.split(" ")[0] in ("P", "D", "C", "U")]
-        for c in cmds:
-            print("impl :", run_cmds(impl, [c])); print("model:", run_cmds(model, [c]))
-            if c[0] == "P": print("spec :", run_cmds(model, ["S" + c[1:].replace(" c", "")]))
-            if c[0] == "D": print("spec :", run_cmds(model, ["G" + c[1:]]))
+        # a replay file holds the failing command line(s); only those are re-checked
+        rp_cases, rp_dirs = [], []
+        for l in open(replay):
+            p = l.strip().split(" ")
+            if p[0] == "P" and len(p) >= 2:
+                rp_cases.append((int(p[1]), ["c" if t == "c" else [int(t[4 * i:4 * i + 4], 16) for i in range(13)] for t in p[2:]]))
+            elif p[0] in ("D", "F") and len(p) >= 2:
+                rp_dirs.append((int(p[1]), [bytes.fromhex(t) for t in p[2:]]))
 
     # ---- 1. LfnBuffer: push / clear / as_str
     cases, pdist = gen_push_cases(rng.fork(), thorough)
+    if replay: cases, pdist = rp_cases, {"replay": len(rp_cases)}
     # near_fit cases: buffer size = exact byte length of the spec name, +-1
     fixed = []
     for n, toks in cases:
@@ -338,12 +353,11 @@ def check(run, replay=None):
     pcmds = ["P %d %s" % (n, ptoks(toks)) for n, toks in cases]
     ires = par_cmds(impl, pcmds)
     mres = par_cmds(model, pcmds)
-    # spec of the final state for histories without clear; spec of the pushes after the last clear otherwise
+    # the spec after every call (T), and from_utf16_lossy of the pushes after the last clear (L)
     def after_clear(toks):
         k = max([i for i, t in enumerate(toks) if t == "c"], default=-1)
         return toks[k + 1:]
-    scmds = ["S %d %s" % (n, ptoks(after_clear(toks))) for n, toks in cases]
-    sres = par_cmds(model, scmds)
+    tres = par_cmds(model, ["T %d %s" % (n, ptoks(toks)) for n, toks in cases])
     lcmds = ["L %d %s" % (n, ptoks(after_clear(toks))) for n, toks in cases]
     lres_i = par_cmds(impl, lcmds)
     lres_m = par_cmds(model, lcmds)
@@ -357,37 +371,39 @@ def check(run, replay=None):
     known_seen = 0
     nonknown_checked = 0
     lossy_disagree = 0
-    for (n, toks), pc, ri, rm, sp, li, lm in zip(cases, pcmds, ires, mres, sres, lres_i, lres_m):
+    calls = 0
+    for (n, toks), pc, ri, rm, tr, li, lm in zip(cases, pcmds, ires, mres, tres, lres_i, lres_m):
         evaluations += 1
         if li != lm:
             lossy_disagree += 1
-        final = ri[2:].split("/")[-1] if toks else ""
-        spec = sp.split(" ")[0][2:]
-        kc = sp.split(" ")[1] == "K=1"; kn = sp.split(" ")[2] == "KN=1"
-        rep = "%s\nimplementation: %s\nmodel:          %s\nspec:           %s\nreplay: echo '%s' | harness/target/debug/lfnrun" % (pc, ri, rm, sp, pc)
-        if "panic" in ri:
+        iv = ri[2:].split("/"); mv = rm[2:].split("/"); tv = [x.split(":") for x in tr[2:].split("/")]
+        rep = "%s\nimplementation: %s\nmodel:          %s\nspec (bytes:KnownClass:KnownClassN per call): %s\nreplay: echo '%s' | harness/target/debug/lfnrun" % (pc, ri, rm, tr, pc)
+        if "panic" in iv:
             disagreements += 1
             viol("LfnBuffer panicked (C17_total)", rep); continue
-        bad = [x for x in ri[2:].split("/") if x in invalid]
+        bad = [x for x in iv if x in invalid]
         if bad:
             disagreements += 1
             viol("as_str is not valid UTF-8 (C17_valid_utf8): %s" % bad[0], rep); continue
-        if not kc:
-            nonknown_checked += 1
-            if final != spec:
-                disagreements += 1
-                viol("as_str differs from the lossy decoding of the fragments (C17_decodes)", rep); continue
-        else:
-            if final != spec and ri == rm:
-                known_seen += 1
-                if not kn:
-                    disagreements += 1
-                    viol("divergence outside the exact known class (C17_decodes_exact)", rep); continue
-            elif final == spec and kn and ri != rm:
-                disagreements += 1
-                viol("model/implementation correspondence broken: the implementation no longer shows the known leading-surrogate divergence (LfnModel.v lfn_push vs filename.rs)",
-                     rep + "\ntheorems depending on it: all of C17", no_input=True); continue
-        if ri != rm:
+        flagged = False
+        for k, (x, (spec, kc, kn)) in enumerate(zip(iv, tv)):
+            calls += 1
+            if kc == "0":
+                nonknown_checked += 1
+                if x != spec:
+                    disagreements += 1; flagged = True
+                    viol("as_str differs from the lossy decoding of the fragments after call %d (C17_decodes)" % (k + 1), rep); break
+            elif x != spec:
+                if kn == "1" and k < len(mv) and x == mv[k]:
+                    known_seen += 1
+                else:
+                    disagreements += 1; flagged = True
+                    viol("as_str differs from the specification in a way the known class does not cover, after call %d (C17_decodes_all / C17_decodes_exact)" % (k + 1), rep); break
+            elif kn == "1":
+                disagreements += 1; flagged = True
+                viol("model/implementation correspondence broken: the implementation no longer shows the known leading-surrogate divergence (LfnModel.v lfn_push vs filename.rs), call %d" % (k + 1),
+                     rep + "\ntheorems depending on it: all of C17", no_input=True); break
+        if not flagged and ri != rm:
             disagreements += 1
             viol("model/implementation correspondence broken (LfnModel.v lfn_push/lfn_clear/lfn_as_str vs filename.rs) although the spec oracle finds nothing",
                  rep + "\ntheorems depending on it: all of C17", no_input=True)
@@ -407,12 +423,13 @@ def check(run, replay=None):
     if thorough:
         xcmds = ["X %d 65536 1" % (k * 65536) for k in range(17)]
     else:
-        xcmds = ["X 0 65536 1", "X %d 16384 67" % rng.below(67), "X 65536 4096 1", "X 1110000 4000 1"]
+        xcmds = ["X 0 65536 1", "X %d 16384 67" % rng.below(67), "X 65536 4096 1", "X 1112000 4000 1"]
     ccmds = []
     for _ in range(4000 if thorough else 500):
         b = bytearray(rng.below(256) for _ in range(32))
         if rng.chance(2, 3): b[11] = (b[11] & 0xF0) | 0x0F
         ccmds.append("C " + bytes(b).hex())
+    if replay: ucmds, ccmds, xcmds = [], [], []
     for cmds, what in ((ucmds, "decode_utf16/encode_utf8"), (ccmds, "lfn_contents")):
         a = par_cmds(impl, cmds); b = par_cmds(model, cmds)
         evaluations += len(cmds)
@@ -428,7 +445,11 @@ def check(run, replay=None):
 
     # ---- 3. listing
     dirs, ddist = gen_dirs(rng.fork(), thorough)
-    dcmds = ["D %d %s" % (n, " ".join(s.hex() for s in slots)) for n, slots in dirs]
+    if replay: dirs, ddist = rp_dirs, {"replay": len(rp_dirs)}
+    # every directory is listed on a FAT16 volume (D: fixed root directory) and on a FAT32 volume
+    # (F: root directory = cluster chain) - iterate_dir_lfn has one copy of the closure for each
+    dirs = [(n, slots, fs) for n, slots in dirs for fs in ("D", "F")]
+    dcmds = ["%s %d %s" % (fs, n, " ".join(s.hex() for s in slots)) for n, slots, fs in dirs]
     di = par_multi(impl, dcmds)
     dm = par_multi(model, dcmds)
     dg = par_multi(model, ["G" + c[1:] for c in dcmds])
@@ -440,7 +461,7 @@ def check(run, replay=None):
     louts = sorted(louts)
     lv = par_cmds(model, [("V " + x).strip() for x in louts])
     linvalid = {x for x, v in zip(louts, lv) if v != "V=1"}
-    for (n, slots), c, gi, gm, gs in zip(dirs, dcmds, di, dm, dg):
+    for (n, slots, fs), c, gi, gm, gs in zip(dirs, dcmds, di, dm, dg):
         evaluations += 1
         entries += len(gi) - 1
         short = c if len(c) < 6000 else c[:6000] + "..."
@@ -469,6 +490,9 @@ def check(run, replay=None):
             viol("model/implementation correspondence broken (LfnModel.v listing vs volume.rs iterate_dir_lfn) although the spec oracle finds nothing",
                  rep + "\ntheorems depending on it: C17_listing C17_arbitrary_dir", no_input=True)
 
+    cand.sort(key=lambda c: c[0])
+    for _, what, text, no_input in cand[:3]:
+        run.violation(what, text, no_input=no_input)
     run.coverage.update(
         evaluations=evaluations,
         distinct_nontrivial=len(set(pcmds)) + len(set(dcmds)) + len(set(ucmds)) + len(set(ccmds)),
@@ -479,7 +503,7 @@ def check(run, replay=None):
         input_distribution={"lfnbuffer_histories": pdist, "directories": ddist, "unit_strings": len(ucmds), "slots_lfn_contents": len(ccmds),
                             "encode_utf8_sweep": xcmds, "buffer_sizes": "fixed set %s and uniform 0..780" % BUFSIZES,
                             "known_class_inputs_reobserved": known_seen, "non_known_inputs_checked_against_spec": nonknown_checked,
-                            "listing_entries_reported": entries, "listing_entries_with_long_name": with_lfn,
+                            "lfnbuffer_calls_checked_against_spec": calls, "listing_entries_reported": entries, "listing_entries_with_long_name": with_lfn,
                             "distinct_as_str_values_checked_valid_utf8": len(outs) + len(louts),
                             "from_utf16_lossy_vs_spec_disagreements": lossy_disagree})
     if lossy_disagree:
